@@ -203,7 +203,11 @@ PROPS['C09'] = dict(
           'retain combinations, PUBLISH, SUBSCRIBE with all option combinations, UNSUBSCRIBE, DISCONNECT, acks) over generated '
           'requests and buffer sizes from 0 to beyond the need, and by an independent Python MQTT parser that decodes the '
           'implementation\'s encoder output and compares every field with the request (mon_encode) and parses session wires.',
-    note='Trusted: Coq kernel and VM (the non-vacuity example is computed), model incl. the broker-side decoder (my reading of '
+    note='At the wire (Sends.v): a publish (QoS 0, 1, 2), subscribe or unsubscribe that returns has put on the wire exactly what '
+         'the queues owed before, followed by the encoding of the request under the identifier of the handle, and nothing else - on '
+         'any transport, however it cuts the writes (C09_publish_on_wire, C09_publish_q0_on_wire, C09_subscribe_on_wire, '
+         'C09_unsubscribe_on_wire; assumption PQ: no PINGREQ is to be queued at the instant of the call). '
+         'Trusted: Coq kernel and VM (the non-vacuity example is computed), model incl. the broker-side decoder (my reading of '
          'MQTT 5), extraction, harness, encoder hooks, Python parser. No axioms. Premises of the round-trip theorems: identifiers and '
          'keep-alive fit 16 bits, property values fit their Rust types (props_ok), retain handling <= 2, DISCONNECT properties only '
          'with a reason — what the public API can express. The keep-alive clause was false on the unchanged tree; repaired by '
@@ -236,8 +240,14 @@ PROPS['C10'] = dict(
           'statement is REFUTED for K < 5 s (C10_gap_refuted_small_keepalive; known finding K10). The instants at which the machine '
           'calls these functions (virtual clock, wait rule, I/O-wins ties) are tied to the code by differential runs with timers '
           'compared after every action and checked by a virtual-time monitor on the implementation traces.',
-    note='Partial: the trace-level gap bound for K >= 5 s is established per step (scheduling, queuing, arming, firing) plus the '
-         'monitor, not as one theorem over whole executions. Trusted: Coq kernel, model, extraction, harness with its virtual '
+    note='The quiet wait is a theorem at the level of the machine and its virtual clock (PingAt.v): with nothing to send and nothing '
+         'arriving, poll() sleeps exactly until the PINGREQ deadline d <= last activity + K, and AT d exactly the two bytes of a '
+         'PINGREQ are written and flushed and the round-trip timer is armed for d + 5 s (C10_poll_pings_at_deadline); an unanswered '
+         'PINGREQ ends the wait with the disconnected error exactly when that bound expires, the handle dead and nothing more written '
+         '(C10_poll_times_out_at_bound); C10_ping_example / C10_ping_hyps_met compute K = 30 s: PINGREQ at 25 s, disconnected at 30 s, '
+         'with the hypotheses proved. Partial: for arbitrary interleavings of user traffic, inbound traffic and time the gap bound for '
+         'K >= 5 s is established per step (scheduling, queuing, arming, firing) plus the monitor, not as one theorem over whole '
+         'executions. Trusted: Coq kernel, model, extraction, harness with its virtual '
          'embassy time driver. No axioms. Known finding K10 (keep-alive < 5 s) is reported as KNOWN-FINDING.')
 
 PROPS['C01'] = dict(
@@ -347,8 +357,8 @@ PROPS['C15'] = dict(
          'alone, is what they still owe the wire; ONE engine step on ANY transport, whatever part of the packet it accepts, moves '
          'bytes from the front of owed to the end of the wire and changes nothing else (C15_engine_step_conserves: '
          'wire\' ++ owed\' = wire ++ owed); so a drain that comes to its end has written exactly owed for EVERY script of partial '
-         'writes (C15_drain_writes_owed_any_fragmentation) - the outbound byte stream is a function of the queues, not of the '
-         'fragmentation. Partial only in that the equality of the RESULTS of two whole programs under different fragmentations '
+         'writes (C15_drain_writes_owed_any_fragmentation; C15_drain_writes_owed_every_state without any assumption on the '
+         'keep-alive timers) - the outbound byte stream is a function of the queues, not of the fragmentation. Partial only in that the equality of the RESULTS of two whole programs under different fragmentations '
          '(operations interleaved with inbound traffic and time) is checked on twin runs, not proved. '
          'Trusted: Coq kernel, model, extraction, harness, reader hook. No axioms.')
 
@@ -367,7 +377,10 @@ PROPS['C13'] = dict(
           '(known finding K13d). The equality of a cancelled run (future dropped at a chosen I/O call after k calls accepting 1, 2, '
           '3 or all bytes, the dropped call repeated / followed by drive()) with its uncancelled twin — outbound packet sequence and '
           'delivered messages — is checked on the implementation and on the model by twin runs.',
-    note='Partial: run-to-run equality is checked, not proved. Trusted: Coq kernel and VM, model, extraction, harness, twin '
+    note='For the outbound drain the cancel-safety is a theorem (Sends.v): a drain dropped at any await point keeps wire ++ owed, the '
+         'session invariants and the timers (C13_dropped_drain_conserves), and run again to its end it completes the byte stream as '
+         'if never interrupted (C13_dropped_drain_resumes). Partial: run-to-run equality of whole operations (publish, subscribe, '
+         'poll with inbound traffic) is checked, not proved. Trusted: Coq kernel and VM, model, extraction, harness, twin '
          'construction in lib/pygen.py (which consults the implementation to decide whether the dropped request had been enqueued). '
          'No axioms.')
 
@@ -404,7 +417,7 @@ PROPS['C16'] = dict(
           'polls - must end live with no owed acknowledgement, no pending PUBREL, a publish-quiescent session and no pending handle; a '
           'poll that returns without a message must have made wire progress; an operation performing 50000 I/O calls (model: fuel) is '
           'reported as spinning.',
-    note='Partial: termination of the engine loops is a theorem (strictly decreasing measure, no assumption on the transport); drive() sending everything queued on a behaving transport is a theorem (no broker size limit, no PINGREQ due), and what it writes is exactly what the queues owed (C16_drive_writes_owed); so is poll() handing an arrived packet to the session and a PUBACK completing its publish in one poll (no PINGREQ due); that the answers to an arbitrary backlog (QoS 2, subscriptions, replays after reconnect) complete every handle within a bounded number of polls is a check over generated histories. '
+    note='Partial: termination of the engine loops is a theorem (strictly decreasing measure, no assumption on the transport); drive() sending everything queued on a behaving transport is a theorem (no broker size limit; C16_drive_sends_all_any_timer: also when a PINGREQ falls due), and what it writes is exactly what the queues owed (C16_drive_writes_owed); so is poll() handing an arrived packet to the session and a PUBACK completing its publish in one poll (no PINGREQ due); that the answers to an arbitrary backlog (QoS 2, subscriptions, replays after reconnect) complete every handle within a bounded number of polls is a check over generated histories. '
          'Trusted: Coq kernel, model, extraction, harness with its healing action and automatic broker. No axioms. '
          'Known finding K12 (arena too full to reconnect) blocks the drain and is reported as KNOWN-FINDING.')
 
